@@ -200,13 +200,28 @@ def run_index(acc: Acc, seed: int, idx: int, nq: int, only=None) -> None:
                     # the user-level route: `zorg query 'S note W … G none'` must print exactly those notes
                     from zmon.gen import history as hg
 
-                    rq = db.cli(root, "query", f"S note W {text} G none")
+                    # three spellings a user may type: full, without the S clause, bare filter (the command line adds 'W ')
+                    form = [f"S note W {text} G none", f"W {text} G none", text][(qi // 12) % 3]
+                    rq = db.cli(root, "query", form)
                     acc.count("cli.query_runs")
                     zs = {hg.first_line_parts(l)[2] for l in rq.out.split("\n") if hg.ITEM_START.match(l)}
                     if rq.rc != 0 or zs != set(got):
-                        acc.violation(f"[q{qi}] `zorg query 'S note W {text} G none'` rc={rq.rc} prints {len(zs)} notes, the filter selects {len(got)}: only CLI {sorted(zs - set(got))[:3]} only filter {sorted(set(got) - zs)[:3]} {rq.err[-200:]}", {"seed": seed, "idx": idx, "label": f"q{qi}", "text": text}, cls="CLI query prints other notes than the filter selects")
+                        acc.violation(f"[q{qi}] `zorg query {form!r}` rc={rq.rc} prints {len(zs)} notes, the filter selects {len(got)}: only CLI {sorted(zs - set(got))[:3]} only filter {sorted(set(got) - zs)[:3]} {rq.err[-200:]}", {"seed": seed, "idx": idx, "label": f"q{qi}", "text": text}, cls="CLI query prints other notes than the filter selects")
                 if len(acc.samples) < 2 and got:
                     acc.sample({"filter": "W " + text, "universe": len(all_z), "returned": sorted(got)[:5], "n_returned": len(got)})
+            # the bare spellings a user types at the command line, one existence filter per property key
+            # (keys starting with the clause letters included): `zorg query 'Who:*'`, `zorg query 'W Who:*'`
+            if only is None:
+                from zmon.gen import history as hg
+
+                for key in sorted({k for n in dump.notes for k in n["props"]}):
+                    want = {n["zid"] for n in dump.notes if key in n["props"]}
+                    for form in (f"{key}:*", f"W {key}:*", f"{key}:* G none"):
+                        rq = db.cli(root, "query", form)
+                        acc.count("cli.bare_query_runs")
+                        zs = {hg.first_line_parts(l)[2] for l in rq.out.split("\n") if hg.ITEM_START.match(l)}
+                        if rq.rc != 0 or zs != want:
+                            acc.violation(f"`zorg query {form!r}` rc={rq.rc} prints {len(zs)} notes, {len(want)} notes carry the property {key}: only CLI {sorted(zs - want)[:3]} missing {sorted(want - zs)[:3]} {rq.err[-200:]}", {"seed": seed, "idx": idx, "label": f"bare:{form}"}, cls="CLI query prints other notes than the filter selects")
             # single-atom filters with their negation: reference + model-free complement law
             gen0 = qg.QGen(rng, TODAY, **pools)
             for label, pos, neg, law in single_atom_cases(gen0, pools):
